@@ -215,7 +215,20 @@ def run(tier, seed, replay=None):
         # on which model and implementation differ is turned into programs (the neutral token becomes a logging
         # command) and, when the implementation approves one, it joins the ground-truth run below
         from . import funcs
-        diffs = funcs.run_ties(out, model, ["unclosed_arith", "count_openers", "plain_raw", "sets_execution_var"], tier, rng, an)
+        diffs = funcs.run_ties(out, model, ["unclosed_arith", "count_openers", "plain_raw", "sets_execution_var", "has_inert_opener"], tier, rng, an)
+        if diffs:
+            # a tie is broken: search longer strings over the delimiting tokens for ones the model and the implementation scan
+            # differently (the short witnesses of the tie are rarely exploitable as they stand), and add them to the lift
+            cand = ["".join(rng.choice(RAW_TOKENS) for _ in range(rng.randint(5, 14))) for _ in range(40000)]
+            found = []
+            for i in range(0, len(cand), 2000):
+                chunk = cand[i:i + 2000]
+                mvs = model.call(["fn", "scan_raw", chunk])
+                for raw, mv in zip(chunk, mvs):
+                    if impl_scan(raw) != mv:
+                        found.append(raw)
+            out.extra["search_after_broken_tie"] = {"candidates": len(cand), "scanned_differently": len(found)}
+            diffs["scan_raw(search)"] = found[:400]
         for name, strs in diffs.items():
             for raw in strs:
                 body = raw.replace("a", "rm x")
